@@ -36,7 +36,7 @@ one was found and `no-failing-input-found` otherwise (§2.4).
 | C01 | generated models + `Fitter` + closed-form least squares (`Props/C01Noise`); 13 | recovery runs with recorded optimiser calls; fixed-contact-point fits vs the closed form at exact rationals | ≈ 10 s |
 | C02 | generated ℝ/Float renderings + hand spec; 31 | regeneration; Float rendering vs numpy (ulp) | ≈ 5 s |
 | C03 C06 C09 C10 | object model `Indent` (+`Rater`), incl. the E(δ)-scan cache (`Props/C03Scan`), the pipeline decision (`Props/C09Pipeline`) and keyword order (`Props/C10Order`); 9 + 5 + 14 + 7 | history engine (random + directed histories incl. `compute_emodulus_mindelta`, in-place edits, fresh-object oracle) | ≈ 30 s each |
-| C04 C05 C11 | `Residual`, `Fitter` (C05 also audits `c05_scan_sample_count` of the object model); 17 + 12 + 12 | exact-rational correspondence with recorded θ̂ / index sets; paired fits | 3–7 s |
+| C04 C05 C11 | `Residual`, `Fitter` (C05 also audits `c05_scan_sample_count` of the object model); 17 + 16 + 12 | exact-rational correspondence with recorded θ̂ / index sets; paired fits | 3–7 s |
 | C07 | `Preproc`; 21 | step-by-step exact-rational correspondence | ≈ 20 s |
 | C08 | `Poc`; 17 | exact-rational correspondence + recorded optimiser inputs | ≈ 60 s |
 | C12 | `Hash`; 16 | byte-exact pre-image correspondence | ≈ 11 s |
@@ -157,7 +157,7 @@ corrected with `gcf_k` turned out to violate C04 and C11 once the generator cove
 
 ### 9.5 Seeded changes (independent sub-agents, property text + scratch worktree only)
 
-Two hundred and fifty-eight changes are kept under `seeded/<id>/` (`patch.diff`, `demo.py`, `meta.json`; each
+Two hundred and seventy-eight changes are kept under `seeded/<id>/` (`patch.diff`, `demo.py`, `meta.json`; each
 confirmed by me in a scratch worktree: demo passes on HEAD, fails with the change, 176 tests pass with it): forty
 from the first round (two per property), ten from a second round of eight agents, seventeen from a third round
 of twelve agents, thirty-one from a fourth round of twenty agents that were asked to avoid the most obvious
@@ -176,7 +176,10 @@ functions that must agree with each other, and twenty-eight from a ninth round o
 run the test suite under a line / branch tracer and to change code the suite never executes, and thirty-four from a
 tenth round of twenty agents that were additionally pointed at strict versus non-strict comparisons that only differ
 when a value coincides with a bound, at pairs of edits, at sign conventions, ancillary parameters, group / map helpers,
-the rating manager and returned types; ninety-eight further submissions duplicated earlier changes and were not kept.
+the rating manager and returned types, and twenty from an eleventh round of twenty agents (one per property, fifth
+session) that were told the property is already checked by randomised differential testing against a from-scratch
+oracle and asked for corners such sampling is unlikely to reach; ninety-eight further submissions duplicated earlier
+changes and were not kept.
 After the repair 1e22c1e of `apply_preprocessing` C03a, C06a and C06d were re-expressed on the repaired tree and
 re-confirmed.  C04c, C11a, C11b and C11c were re-expressed on the tree in which the contact-point limits are corrected
 with `gcf_k`, C10g on the tree in which `compute_poc` converts its input to floating point, C16g and C16i on the
@@ -186,18 +189,25 @@ Two earlier seeds were retired: C08f (in-place normalisation that failed for int
 broke the property because `available()` handed out its cached list; after the repair cbd93cb the change is
 harmless (its demonstration passes).  Neither is counted any more.
 `tools/run_seeds.py` applies each to `/repo`, runs the quick check of its property, undoes it and
-writes `seeded/RESULTS.json`.  All of them are reported by `./check <property> --tier quick`; all but one with a
-concrete failing input (the share of first-missed seeds per round was 8/17, 15/31, 14/26, 13/28, 10/22, 5/24, 12/28 and 13/34 in
-rounds three to ten – the last two were aimed at code the test suite never executes, which is also code the checks
+writes `seeded/RESULTS.json`.  All of them are reported by `./check <property> --tier quick`; all but two with a
+concrete failing input (the share of first-missed seeds per round was 8/17, 15/31, 14/26, 13/28, 10/22, 5/24, 12/28, 13/34 and 6/20 in
+rounds three to eleven – the last two were aimed at code the test suite never executes, which is also code the checks
 had not reached yet).  The exception is C08j (`poc_deviation_from_baseline` tests `|force − baseline|` instead of
 the signed deviation): it keeps every returned index valid and invariant and leaves clean model curves untouched –
 what it changes is the estimate on curves with a descending baseline, for which the property states no accuracy –
 so no input violates the statement; the correspondence with the Lean model of the estimator breaks and the check
 reports it as `no-failing-input-found`, as designed for a property that is no longer shown to hold.
+The second is C09m (eleventh round: two cooperating edits after which a preprocessing change on a curve *without fit
+results* no longer clears the cached rating).  The object model says the rating must be recomputed (`cached=false`),
+the implementation answers from the cache, so the correspondence breaks on the first such history; the cached and the
+recomputed value of an unfitted curve coincide, however, unless the new pipeline moves the approach segment across the
+600-sample size criterion (the agent's demonstration uses a recording of 590 approach samples that
+`correct_split_approach_retract` re-splits to 614), which none of the pool curves does – reported as
+`no-failing-input-found`; a pool curve of that kind is the obvious next addition.
 
 | seed | change | caught by |
 |------|--------|-----------|
-''' + "\n".join(f"| {n} | {short.replace('|','/')} | `./check {prop}` – oracle on the real code with replay" for n,prop,short in rows) + r'''
+''' + "\n".join(f"| {n} | {short.replace('|','/')} | " + (f"`./check {prop}` – broken correspondence with the Lean model, `no-failing-input-found` (see above)" if n in ("C08j", "C09m") else f"`./check {prop}` – oracle on the real code with replay") for n,prop,short in rows) + r'''
 
 Checks that had to be strengthened because a seed was first missed or reported only as
 `no-failing-input-found` (each strengthening is generic – a class of inputs or histories, not the seed):
@@ -354,6 +364,25 @@ Checks that had to be strengthened because a seed was first missed or reported o
   option dictionary silently replaced by the remembered options) its failing input; the pair oracle now also compares
   the columns after every accepted request with those of a fresh curve given *that request* – the property's own
   words – and not only with a fresh curve given the pipeline the curve says it stored.
+
+* eleventh round (6 of 20 were first missed, 2 more had no failing input): C01 (a fit with a wrong fixed tip radius
+  followed on the same object by the fit with the right one, for sharp tips whose radius and its correction are of
+  the order of 1e-9 … 1e-8 – C01m compared the old and new parameters with an absolute tolerance of 1e-8), C06
+  (requests aborted by `KeyboardInterrupt` / `SystemExit` / `MemoryError` raised inside the contact-point
+  estimation: not remembered, and the same request afterwards gives the columns of a fresh curve – C06o narrowed the
+  roll-back to `Exception`), C10 (minimiser keywords with an *inner* dictionary edited by the caller between two
+  calls – C10o stored a shallow copy), C13 (the wrapper stated on the user's function itself: evaluated on the
+  abscissa with first ≥ last and returned in the caller's order, for non-monotonic abscissae whose extreme positions
+  disagree with first / last – C13m had only broken the tie with `Residual.wrap`), C14 (every selection also handed to
+  a recording that already holds a "tip position" column – C14q counted the tip-sample separation as done for such
+  data), C17 (the list returned by `get_feature_names` reversed and extended by the caller, then asked for again –
+  C17n handed out a cached list), C19 (two or three live `Profile` objects on one file with interleaved writes; every
+  reader – old objects and a new one – sees every value written last – C19r cached the parsed file per object).
+  New theorems of the round: `Props/C04` (weights rise monotonically and symmetrically, chi-square is non-negative and
+  zero exactly when the used residuals vanish, weighting never increases chi-square) with the same laws evaluated on
+  the real `compute_contact_point_weights` / `residual`, and `Props/C05` (`lmin_spec`, `lmax_spec`, `select_mem`,
+  `c05_xmin_xmax_extreme`: the reported xmin / xmax are attained at points the `fit range` column flags and bracket
+  every used point).
 
 ### 9.6 Observations that are not findings
 
